@@ -591,3 +591,6 @@ PROPS["C16"]["level_text"] += (" ClockCache::clear: under the eviction lock, per
                                "decreased by exactly that sum, once.")
 PROPS["C16"]["functions"] += ["src/core/cache.rs::clear"]
 PROPS["C16"]["outside"] = "cache-on/off equivalence as executions, concurrency"
+PROPS["C20"]["level_text"] += (" process_completions, one arbitrary completion entry: attributed to slot user_data - base only below `queued`; released/counted only when mark_complete accepted it "
+                               "(no double free, no double count); validated against the same slot's buffer length.")
+PROPS["C20"]["functions"] += [IO + "::process_completions"]
